@@ -16,6 +16,9 @@ PRESENTATION = [[], ["--with-derive-hash", "--with-derive-partialeq", "--with-de
 
 def feature_group(rec):
     f = rec.features
+    for special in ("complex-long-double", "over-aligned-typedef", "member-packed"):
+        if special in f:
+            return special
     if "packed" in f or "pragma-pack" in f:
         return "packed"
     if "member-aligned" in f or "type-aligned" in f:
@@ -92,6 +95,17 @@ def run(ck):
                 rec.members.append({"name": "m%d" % j, "decl": "%s m%d" % (n, j), "bitfield": None, "anon": False})
             rec.features = {"named-typedef"}
             named.append(rec)
+        # shapes outside the random generator's grammar (each a known finding of the unchanged tree: see KNOWN_FINDINGS.jsonl)
+        extra = []
+        for nm, members, feat in (("X0", ["char c", "_Complex long double z"], "complex-long-double"), ("X1", ["char c", "_Complex float z", "char d"], "complex"),
+                                  ("X2", ["char c", "_Complex double z"], "complex"), ("X3", ["aint8 a"], "over-aligned-typedef"), ("X4", ["char c", "aint8 a", "char d"], "over-aligned-typedef"),
+                                  ("X5", ["char a", "int b __attribute__((packed))", "short c"], "member-packed")):
+            rec = e2e.Rec(nm)
+            for m in members:
+                rec.members.append({"name": re.match(r".*?(\w+)(?: __attribute__.*)?$", m).group(1), "decl": m, "bitfield": None, "anon": False})
+            rec.features = {feat}
+            extra.append(rec)
+        batches.append((-3, False, extra, "typedef int aint8 __attribute__((aligned(8)));\n" + "\n".join(x.text() for x in extra)))
         batches.append((-2, True, named, "#include <stdint.h>\n#include <stddef.h>\n#include <sys/types.h>\n#include <wchar.h>\n#include <uchar.h>\n#include <signal.h>\n" + "\n".join(x.text() for x in named)))
         for b in range(10 if quick else 150):
             plain = b % 5 != 4 and b % 5 != 3
@@ -176,7 +190,7 @@ def judge(ck, rec, c, rres, hdr):
         code = (re.search(r"E\d{4}", msg) or [None])[0] if kind == "rustc-error" else None
         cls = "C02-%s:%s:%s" % (kind, code or "other", grp)
         has_bf = any(m["bitfield"] for m in rec.members)
-        if (code == "E0133" and "__BindgenUnionField" in msg) or (rec.kind == "union" and has_bf and code in ("E0133", "E0054")):
+        if (code == "E0133" and "__BindgenUnionField" in msg) or (rec.kind == "union" and has_bf and code in ("E0133", "E0054")) or (code == "E0054" and "cannot cast `u8` as `bool`" in msg):
             # a union with bit-fields that is not emitted as a Rust union: accessors call the unsafe __BindgenUnionField::as_ref / as_mut
             # outside an unsafe block and cast u8 to bool for _Bool fields
             cls = "C02-rustc-error:E0133:union-bitfield"
